@@ -153,7 +153,7 @@ pub fn run(args: &Args) {
         report.finish();
     }
     report.run_regressions(run_input);
-    let n = args.tier.pick(4000, 120_000);
+    let n = args.tier.pick(24_000, 240_000);
     let res = vcore::run_prop_parallel(&report, "pairs", n, vcore::num_workers(), driver::art_case_strategy, |spec| {
         driver::count_excluded(&report, spec, &ex);
         let Some(pair) = make_pair(spec, &ex) else {
